@@ -50,7 +50,8 @@ def gen_treeinfo(rng, R=None):
         if rng.random() < 0.3:
             d["stage2"]["instimage"] = "images/inst.img"
     if rng.random() < 0.4:
-        d["media"] = {"discnum": rng.randint(1, 3), "totaldiscs": 3}
+        d["media"] = rng.choice([{"discnum": rng.randint(1, 3), "totaldiscs": 3}, {"discnum": rng.randint(1, 3), "totaldiscs": 3},
+                                 {"discnum": 0, "totaldiscs": 2}, {"discnum": 3, "totaldiscs": 0}])
     if rng.random() < 0.5:
         for p in rng.sample(["images/boot.iso", "repodata/repomd.xml", "images/pxeboot/vmlinuz", "LiveOS/squashfs.img"], rng.randint(1, 3)):
             d["checksums"][p] = [rng.choice(["sha256", "md5", "sha1"]), rstr(rng, rng.choice(["0123456789abcdef", "0123456789abcdef", "0123456789ABCDEF", "0123456789abcdefABCDEF"]), 32, 32)]
@@ -251,4 +252,14 @@ def impl_general(case):
         seen = exc_result(e)
     except Exception as e:
         seen = ["err", "Other:" + type(e).__name__]
-    return ["ok", text, seen]
+    # "every .treeinfo the library writes": also the one written after loading this file back, with no main variant requested
+    reloaded = None
+    try:
+        back = TI.TreeInfo()
+        back.loads(text)
+        reloaded = mini_ini(_dumps(back, None)).get("general", {}).get("variant")
+    except EXC as e:
+        reloaded = exc_result(e)
+    except Exception as e:
+        reloaded = ["err", "Other:" + type(e).__name__]
+    return ["ok", text, seen, reloaded]
